@@ -234,11 +234,34 @@ impl<T> EnumQueue<T> {
 
 #[verifier::external_body]
 pub struct DurationH { _p: () }
+impl DurationH {
+    // this duration is the constant WRITE_BUFFER_FLUSH_INTERVAL
+    pub uninterp spec fn is_flush_interval(&self) -> bool;
+}
 // WRITE_BUFFER_FLUSH_INTERVAL (a Duration constant; its value is the real-time part of C19, not decided here)
 #[verifier::external_body]
-pub fn flush_interval() -> DurationH { unimplemented!() }
+pub fn flush_interval() -> (r: DurationH)
+    ensures r.is_flush_interval(),
+{
+    unimplemented!()
+}
+// any other Duration constant of the write buffer
 #[verifier::external_body]
-pub fn thread_sleep(d: &DurationH) { unimplemented!() }
+pub fn other_interval() -> DurationH { unimplemented!() }
+// the coordinator's wait between two rounds: C19's bound is stated in terms of THE flush interval, so the wait is that
+// constant - not a longer or state-dependent one
+#[verifier::external_body]
+pub fn thread_sleep(d: &DurationH)
+    requires d.is_flush_interval(),
+{
+    unimplemented!()
+}
+#[verifier::external_body]
+pub fn thread_park_timeout(d: &DurationH)
+    requires d.is_flush_interval(),
+{
+    unimplemented!()
+}
 
 // (a..b).step_by(s): next index of the stride (step_by panics on 0)
 pub fn step_next(i: usize, step: usize) -> (r: usize)
